@@ -618,6 +618,9 @@ func main() {
 			if o.PostCrash {
 				ck.Count("died_after_verify_returned", 1)
 			}
+			if cs.PageCross && cs.Class.UnifiedGPU && cs.Class.NGPU > 1 {
+				ck.Count("anchors_with_a_page_crossing_parameter_slice_on_scattered_frames", 1)
+			}
 			if cs.Class.Arch == "cdna3" && cs.Class.Timing && cs.Class.NGPU == 1 && o.Trace["max_wavefronts_per_launch"] > 480 {
 				ck.Count("timing_cdna3_anchors_with_two_wavefronts_per_simd", 1)
 			} else if cs.Occ {
@@ -739,6 +742,9 @@ func minCounters(minNT int, only string, thorough bool) map[string]int64 {
 			mc["timing_cdna3_anchors_with_two_wavefronts_per_simd"] = 12
 		}
 		mc["multi_benchmark_runs_verified"] = 20
+		// conv2d shapes whose bias slice straddles a page boundary, verified on
+		// unified multi-GPU devices (non-consecutive physical frames)
+		mc["anchors_with_a_page_crossing_parameter_slice_on_scattered_frames"] = 4
 	}
 	return mc
 }
